@@ -153,8 +153,9 @@ func (fr *Frame) resolveLocal(name string, st *State) (Val, bool) {
 	if fr.nameFrame != nil && fr.nameFrame != fr {
 		return fr.nameFrame.resolveLocal(name, st)
 	}
-	// an inlined closure may mention variables of the function it is written in
-	if fr.parent != nil && fr.fn.Parent() != nil {
+	// an inlined closure may mention variables of the function it is written in; the invariants of a loop that lives in
+	// a helper executed in place are written over the variables of the function under contract
+	if fr.parent != nil && (fr.fn.Parent() != nil || fr.flatOwner != nil) {
 		return fr.parent.resolveLocal(name, st)
 	}
 	return Val{}, false
@@ -176,6 +177,9 @@ func (fr *Frame) localLoc(name string) (*Loc, types.Type, bool) {
 	}
 	if fr.nameFrame != nil && fr.nameFrame != fr {
 		return fr.nameFrame.localLoc(name)
+	}
+	if fr.parent != nil && fr.flatOwner != nil {
+		return fr.parent.localLoc(name)
 	}
 	return nil, nil, false
 }
